@@ -79,6 +79,19 @@ def run(c):
             for inner in (inners if thorough else rng.sample(inners, 12)):
                 for fixed in ((0x01, 0x11, 0x05, 0x0F) if "Transport" in t["name"] else (0x00, 0x01)):
                     cases.append(dict(k="dec", entry="plain", inp=with_container(t["name"], sname, inner, fixed)))
+    # a receiving message that is not fresh: the OTHER family decoded into it before, or its SecurityHeader view filled in by
+    # the caller - routing still follows the octets of the new input (accept / reject and routed body judged, event DecX)
+    fams_ = sorted(byfam)
+    for _ in range(300 if not thorough else 3000):
+        fa, fb = rng.choice(fams_), rng.choice(fams_)
+        a, b = rng.choice(byfam[fa]), rng.choice(byfam[fb])
+        cases.append(dict(k="dec2x", entry="plain", inp=a["inp"], inp2=b["inp"]))
+    unrouted = [p for p in pts if not p["routed"] and p["entry"] == "plain"]
+    for p in rng.sample(routed, min(len(routed), 80)) + rng.sample(unrouted, min(len(unrouted), 80)):
+        for pre in ([0x7E, 0], [0x2E, 0], [0x7E, 2], [0x00, 4]):
+            cases.append(dict(k="dec2x", entry="plain", inp2=p["inp"], pre2=pre))
+        a = rng.choice(routed)
+        cases.append(dict(k="dec2x", entry="plain", inp=a["inp"], inp2=p["inp"]))
     for p in rng.sample(routed, min(len(routed), 60)):
         cases.append(dict(k="dec2", entry="plain", inp=p["inp"], inp2=[p["inp"][0]]))          # then a too-short input
     # encode dispatch: the never-dispatched envelope body populated next to known / unknown types
@@ -108,8 +121,8 @@ def run(c):
     def classify(idx, t):
         if t[0] != "MISMATCH": return None
         e = json.loads(events[idx])
-        what = ("%s %s -> ok=%s bodies=%s: %s" % (e["entry"], e["inp"][:5], e["ok"], e.get("bodies"), t[2])) if e["op"] == "Dec" else ("encode fam=%s mt=%d body=%s -> ok=%s panic=%s: %s" % (e["fam"], e["mt"], e["m"], e["ok"], e["panic"], t[2]))
-        return ("DecodeDispatch" if e["op"] == "Dec" else "EncodeDispatch", t[2], what, dict(case=cases[idx], observed=e))
+        what = ("%s %s -> ok=%s bodies=%s: %s" % (e["entry"], e["inp"][:5], e["ok"], e.get("bodies"), t[2])) if e["op"] in ("Dec", "DecX") else ("encode fam=%s mt=%d body=%s -> ok=%s panic=%s: %s" % (e["fam"], e["mt"], e["m"], e["ok"], e["panic"], t[2]))
+        return ("DecodeDispatch" if e["op"] in ("Dec", "DecX") else "EncodeDispatch", t[2], what, dict(case=cases[idx], observed=e))
 
     def confirm(idx, t):
         return confirm_by_tlc(c, drv, cases[idx], "Trace_C05", t[2])
